@@ -485,6 +485,12 @@ func trimPathPrefix(u *url.URL, prefix string) *url.URL {
 		trimmedURI = trimmedURI + "#" + u.Fragment
 	}
 	trimmedURL, err := url.Parse(trimmedURI)
+	if err == nil && (trimmedURL.Host != "" || trimmedURL.Scheme != "" || trimmedURL.User != nil || trimmedURL.Opaque != "") {
+		// a remainder such as "//evil.com/.." was read as a reference to
+		// another origin; it is a path of this site, so parse it the way
+		// net/http parses a request target
+		trimmedURL, err = url.ParseRequestURI(trimmedURI)
+	}
 	if err != nil {
 		log.Printf("[ERROR] Unable to parse trimmed URL %s: %v", trimmedURI, err)
 		return u
